@@ -77,6 +77,8 @@ def S(t, al=None, depth=0):
             return "%s%s%s(%s)" % (S(recv, al, d), sep, name, ",".join(args))
         return "%s(%s)" % (name, ",".join(args))
     if k == "ctor":
+        if (t.get("copy") or t.get("move")) and len(t.get("a", [])) == 1:
+            return S(t["a"][0], al, d)       # copy / move construction is transparent
         return "%s{%s}" % (t.get("fn", "?").split("::")[-1],
                            ",".join(S(a, al, d) for a in t.get("a", [])))
     if k == "bin":
@@ -599,6 +601,17 @@ def is_assign(lp=None, op=None):
             return False
         return True
     return p
+
+
+def stores(fn, al=None):
+    """(pos, target string, op, value string) for builtin assignments and class-type operator= / compound calls alike"""
+    al = fn.aliases() if al is None else al
+    for pos, e in fn.events():
+        if e.get("k") == "assign":
+            yield pos, S(e.get("lhs"), al), e.get("op"), (S(e.get("rhs"), al) if e.get("rhs") is not None else None)
+        elif e.get("k") == "call" and e.get("op") in ("=", "+=", "-=", "|=", "&=", "++", "--") and e.get("recv") is not None:
+            a = e.get("a", [])
+            yield pos, S(e["recv"], al), e["op"], (S(a[0], al) if a else None)
 
 
 def is_ret(e):
